@@ -44,10 +44,12 @@ def body(env, prog, conn):
         return v
 
     env.keep = None  # the previous execution's handle goes away now, not at a random moment
+    env.exit_funcs = []
+    env.capturing = True  # what the library registers with atexit is collected, not registered
+    env.nonblocking = False
 
     def construct():
         c = Collection(prog["spelled"], UkvCollectionBackend, readonly=prog["ro"], bufsize=BUFS[prog["buf"]], value_encoder=enc)
-        atexit.unregister(c._backend.flush)
         # long-lived handle: it outlives the execution (a leaked lock must stay leaked, not be
         # released by the garbage collector at a moment the scheduler does not control)
         env.keep = c
@@ -73,6 +75,20 @@ def body(env, prog, conn):
             return
     for sess in prog["sessions"]:
         log.append(do_session(env, coll, sess))
+    if prog.get("exits"):
+        # the process terminates normally: what was registered with atexit runs now (under the
+        # scheduler; an exit hook must not wait for a lock forever, so acquisitions do not block)
+        env.begin_session(None)
+        env.nonblocking = True
+        for func, a, k in reversed(env.exit_funcs):
+            env._refused = False
+            try:
+                func(*a, **k)
+            except BaseException as ex:
+                log.append({"kind": "exit-hook", "puts": [], "puts_ok": [], "dup_rejected": [], "listed": None, "reads": {}, "exc": type(ex).__name__, "exc_msg": str(ex)[:80], "state_after": "idle", "file_closed_after": True, "fault_fired": False, "queue_after": 0})
+        env.nonblocking = False
+    env.exit_funcs = []
+    env.capturing = False
     env.active = False
     be = coll._backend
     be._write_queue.clear()
@@ -84,9 +100,13 @@ def body(env, prog, conn):
 def do_session(env, coll, sess):
     env.begin_session(sess.get("fault"))
     e = {"kind": sess["kind"], "puts": sess.get("puts", []), "puts_ok": [], "dup_rejected": [], "listed": None, "reads": {}, "exc": None}
+    timeout = 0 if sess.get("timeout") else None
+    env.nonblocking = timeout is not None
+    env._refused = False
     try:
         if sess["kind"] in ("W", "D"):
-            with coll.writing():
+            with coll.writing(timeout=timeout):
+                env.nonblocking = False
                 for k, v in sess["puts"]:
                     if env.fault_here("body"):
                         raise schedx.InjectedFault("injected: body failed")
@@ -100,7 +120,8 @@ def do_session(env, coll, sess):
                         coll[k] = v
                     e["puts_ok"].append(k)
         else:
-            with coll.reading():
+            with coll.reading(timeout=timeout):
+                env.nonblocking = False
                 if env.fault_here("body"):
                     raise schedx.InjectedFault("injected: body failed")
                 ks = sorted(coll.keys())
@@ -113,6 +134,8 @@ def do_session(env, coll, sess):
     except BaseException as ex:
         e["exc"] = type(ex).__name__
         e["exc_msg"] = str(ex)[:80]
+    e["gave_up"] = bool(env.nonblocking and env._refused)
+    env.nonblocking = False
     be = coll._backend
     e["state_after"] = be._state
     uf = getattr(be, "_ukvfile", None)
@@ -141,7 +164,7 @@ class Monitor:
                 if writers and len(self.open) > 1:
                     self.violations.append(("writer-overlap", f"library file open in modes {sorted(self.open.items())} at the same time"))
         elif label == "close":
-            if prev in ("closed", "closed-but-raised"):
+            if prev in ("closed", "closed-but-raised", "closed-but-buffer-lost"):
                 self.open.pop(wid, None)
         elif label == "lock?":
             if prev == "acquired":
@@ -199,7 +222,7 @@ class Bench:
         for wid, w in enumerate(spec):
             sp, cwd = self.spelled(wid, w["spelling"])
             ro = bool(w.get("ro"))
-            progs.append({"lib": str(self.lib), "spelled": sp, "cwd": cwd, "ro": ro, "buf": w["buf"], "sessions": w["sessions"], "sched_ctor": bool(w.get("sched_ctor"))})
+            progs.append({"lib": str(self.lib), "spelled": sp, "cwd": cwd, "ro": ro, "buf": w["buf"], "sessions": w["sessions"], "sched_ctor": bool(w.get("sched_ctor")), "exits": bool(w.get("exits"))})
         return progs
 
 
@@ -222,6 +245,8 @@ def _val(wid, si, j, seed):
 def fault_context(spec):
     if any(w.get("sched_ctor") for w in spec):
         return "concurrent-construction"
+    if any(w.get("exits") or any(s.get("timeout") for s in w["sessions"]) for w in spec):
+        return "timeouts-and-process-exit"
     for w in spec:
         for s in w["sessions"]:
             if s.get("fault"):
@@ -239,6 +264,14 @@ def judge(bench: Bench, spec, x: schedx.Execution):
         for si, e in enumerate(log):
             if e["kind"] == "ctor":
                 out.append((f"constructor-raised[{e['exc']}]", f"worker {wid}: constructing the handle raised {e['exc']}: {e.get('exc_msg')}"))
+                continue
+            if e["kind"] == "exit-hook":
+                out.append((f"exit-hook-raised[{e['exc']}]", f"worker {wid}: an atexit hook of the library raised {e['exc']}: {e.get('exc_msg')}"))
+                continue
+            if e.get("gave_up") and e["exc"] == "TimeoutError":
+                # a session with a timeout that found the lock taken: it legitimately did not run
+                if e["state_after"] != "idle" or not e["file_closed_after"]:
+                    out.append(("state-after-timed-out-session", f"worker {wid} session {si}: state {e['state_after']!r} / file open after a timed-out attempt"))
                 continue
             failed = e["exc"] is not None
             faulted = bool(spec[wid]["sessions"][si].get("fault")) and e["fault_fired"]
@@ -455,7 +488,7 @@ def plain_specs(ctx, nworkers, total_sessions, spellings, bufs):
     return specs
 
 
-FAULT_KINDS = ["body", "encoder", "write", "close", "open"]
+FAULT_KINDS = ["body", "encoder", "write", "close", "open", "flush"]
 
 
 def fault_specs(ctx, bufs_for_faulty):
@@ -466,7 +499,7 @@ def fault_specs(ctx, bufs_for_faulty):
             for after in ((), ("W",), ("R",)):
                 for other in (("W",), ("R",), ("W", "R")):
                     for fk in FAULT_KINDS:
-                        if faulty_kind == "R" and fk in ("encoder", "write"):
+                        if faulty_kind == "R" and fk in ("encoder", "write", "flush"):
                             continue
                         specs.append((buf, faulty_kind, after, other, fk))
     return specs
@@ -491,6 +524,28 @@ def ctor_specs(ctx, nworkers, spellings):
         for wid, kinds in enumerate(combo):
             spec.append({"spelling": spellings[wid % len(spellings)], "buf": ["dflt", "large"][wid % 2], "ro": False, "sched_ctor": True, "sessions": mk_sessions(wid, kinds, ctx.seed)})
         specs.append(spec)
+    return specs
+
+
+def lifecycle_specs(ctx, spellings):
+    """sessions with a timeout (they give up instead of waiting) and processes that terminate
+    normally (the library's atexit hooks run) while others keep working"""
+    specs = []
+
+    def w(wid, kinds, touts, exits):
+        ss = mk_sessions(wid, kinds, ctx.seed)
+        for s, t in zip(ss, touts):
+            if t:
+                s["timeout"] = True
+        return {"spelling": spellings[wid % len(spellings)], "buf": ["dflt", "large"][wid % 2], "ro": False, "exits": exits, "sessions": ss}
+
+    for k0 in (("W",), ("R",)):
+        for k1, t1 in ((("W", "W"), (True, False)), (("R", "W"), (True, False)), (("W",), (True,))):
+            # two processes
+            specs.append([w(0, k0, (False,) * len(k0), True), w(1, k1, t1, False)])
+            # and a third one that arrives later
+            for k2 in (("W",), ("R",)):
+                specs.append([w(0, k0, (False,) * len(k0), True), w(1, k1, t1, False), w(2, k2, (False,), True)])
     return specs
 
 
@@ -651,6 +706,8 @@ def run(ctx):
         ctx.pmap(part_fault, [(1, c) for c in chunks(fss, nproc)], nproc=nproc)
         specsc = ctor_specs(ctx, 2, list(sp_q))
         ctx.pmap(part_plain, [(2, 2, c) for c in chunks(specsc, nproc)], nproc=nproc)
+        lsp = lifecycle_specs(ctx, sp2)
+        ctx.pmap(part_plain, [(len(s), 2, [s]) for s in lsp], nproc=nproc)
         model_family(ctx, 2, beh2, nproc)
         ctx.bound = {"processes": 2, "sessions_total": 4, "preemptions": bound, "fault_family_preemptions": 1, "faults_per_execution": 1, "path_spellings": list(sp_q) + ["rel+sym in the fault family"]}
     else:
@@ -663,6 +720,7 @@ def run(ctx):
         ctx.pmap(part_fault, [(2, c) for c in chunks(fss, nproc * 2)], nproc=nproc)
         ctx.pmap(part_plain, [(2, 3, c) for c in chunks(ctor_specs(ctx, 2, sp2[:2]), nproc)], nproc=nproc)
         ctx.pmap(part_plain, [(3, 2, c) for c in chunks(ctor_specs(ctx, 3, sp2), nproc * 2)], nproc=nproc)
+        ctx.pmap(part_plain, [(len(s), 3, [s]) for s in lifecycle_specs(ctx, sp2)], nproc=nproc)
         model_family(ctx, 2, beh2, nproc)
         model_family(ctx, 3, beh3, nproc)
         ctx.bound = {"processes": "2 (bound 3) and 3 (bound 2)", "sessions_total": "4 / 4", "fault_family_preemptions": 2, "faults_per_execution": 1, "path_spellings": sp2}
